@@ -270,6 +270,65 @@ pub fn run(ctx: &Ctx) {
             }
         }));
     }
+    // product 3c: whatever a filter decides, a kept message is the unfiltered message and the
+    // remainder is the unfiltered remainder - over every seed message x storage-header variants x
+    // a broad list of configurations (the drop decision itself is judged by the products above)
+    {
+        let seeds: Vec<RefMsg> = seed_messages(Tier::Thorough).into_iter().chain((0..embedded_pattern_positions()).map(|p| embedded_pattern_message(p, p % 2 == 1, None, b"DLT\x01", "DLT\u{1}"))).collect();
+        let set = |v: &[&str]| -> Option<std::collections::HashSet<String>> { Some(v.iter().map(|s| s.to_string()).collect()) };
+        let mut cfgs: Vec<(String, ProcessedDltFilterConfig)> = vec![];
+        let base = || ProcessedDltFilterConfig { min_log_level: None, app_ids: None, ecu_ids: None, context_ids: None, app_id_count: 0, context_id_count: 0 };
+        cfgs.push(("keep all".into(), base()));
+        for (i, l) in [dlt_core::dlt::LogLevel::Fatal, dlt_core::dlt::LogLevel::Error, dlt_core::dlt::LogLevel::Warn, dlt_core::dlt::LogLevel::Info, dlt_core::dlt::LogLevel::Debug, dlt_core::dlt::LogLevel::Verbose].into_iter().enumerate() {
+            cfgs.push((format!("min level {}", i + 1), ProcessedDltFilterConfig { min_log_level: Some(l), ..base() }));
+        }
+        for e in [vec!["ECU1"], vec!["STOR"], vec![""], vec!["ECU1", "STOR", ""], vec!["NOPE"], vec![]] {
+            cfgs.push((format!("ecu ids {:?}", e), ProcessedDltFilterConfig { ecu_ids: set(&e), ..base() }));
+        }
+        for a in [vec!["APP"], vec!["APP", "AP", "A", "é", "UN", "NW", ""], vec!["NOPE"]] {
+            cfgs.push((format!("app ids {:?}", a), ProcessedDltFilterConfig { app_ids: set(&a), app_id_count: 1, ..base() }));
+            cfgs.push((format!("context ids {:?} count 9", a), ProcessedDltFilterConfig { context_ids: set(&a), context_id_count: 9, ..base() }));
+        }
+        cfgs.push(("everything at once".into(), ProcessedDltFilterConfig { min_log_level: Some(dlt_core::dlt::LogLevel::Verbose), app_ids: set(&["APP", "AP", "A", "é", "UN", "NW", ""]), ecu_ids: set(&["ECU1", "STOR", ""]), context_ids: set(&["CTX", "", "C", "€", "KN", "TR"]), app_id_count: 0, context_id_count: 0 }));
+        // storage variants: none, id equal to the header's, another id, blank id, non-ASCII id
+        let storages: Vec<Option<&str>> = vec![None, Some("ECU1"), Some("STOR"), Some(""), Some("é1")];
+        let sp = Space::new(&[seeds.len(), storages.len(), cfgs.len(), 2]);
+        let s2 = sp.clone();
+        let (seeds, cfgs, storages) = (&seeds, &cfgs, &storages);
+        ctx.run_family(Family::new("c09.kept_identical", sp.size(), format!("{} seed messages (every argument kind, payload kind, header shape; messages carrying the storage pattern) x storage header {{none, id = header id, other id, blank id, non-ASCII id}} x {} filter configurations (every minimum level, ECU / application / context sets of several shapes, all criteria at once) x header ECU id {{as is, blank}}: a kept message is bit-identical to the unfiltered parse, a marker carries the payload length, the remainder is the same", seeds.len(), cfgs.len()), move |i, loc| {
+            let c = s2.coords(i);
+            let mut m = seeds[c[0]].clone();
+            m.storage = storages[c[1]].map(|id| storage(0x0102_0304, 0x0005_0607, id));
+            if c[3] == 1 {
+                if m.ecu.is_none() {
+                    return;
+                }
+                m.ecu = Some(String::new());
+            }
+            let m = normalize(m);
+            let st = m.storage.is_some();
+            let mut bytes = encode(&m).0;
+            bytes.extend_from_slice(b"\x35rest");
+            let (name, f) = &cfgs[c[2]];
+            loc.evals += 1;
+            loc.traces += 1;
+            loc.transitions += 2;
+            loc.state(i, true);
+            let plain = match catch(|| dlt_message(&bytes, None, st).map(|(rest, pm)| (rest.len(), pm))) {
+                Ok(Ok((5, ParsedMessage::Item(pm)))) => pm,
+                other => panic!("C09 harness: unfiltered parse of a seed failed: {:?} seed {} storage {:?} blank {} bytes {}", other.map(|r| r.map(|x| x.0)), c[0], storages[c[1]], c[3], hex_short(&bytes)),
+            };
+            let desc = || format!("filter [{}], storage header {:?}, message {}", name, storages[c[1]], hex_short(&bytes));
+            match catch(|| dlt_message(&bytes, Some(f), st).map(|(rest, pm)| (rest.len(), pm))) {
+                Ok(Ok((5, ParsedMessage::Item(k)))) if same_message(&k, &plain) => loc.outcome("kept, identical"),
+                Ok(Ok((5, ParsedMessage::FilteredOut(n)))) if n == m.payload_len as usize => loc.outcome("dropped, marker and remainder right"),
+                other => {
+                    loc.outcome("filter changes more than the decision");
+                    loc.violation("a filter changes the message or the remainder", format!("{}: unfiltered {} ; with filter {:?}", desc(), fp(&plain), other.map(|r| r.map(|(n, pm)| (n, match pm { ParsedMessage::Item(k) => fp(&k), o => format!("{:?}", o) })))), json!({"case": desc()}));
+                }
+            }
+        }));
+    }
     // product 4: near-miss ids -- the set holds exactly one id, the message carries a similar one
     {
         let near: Vec<&'static str> = vec!["AB", "AB ", "AB  ", " AB", "ab", "Ab", "A", "B", "ABC", "ABCD", "abcd", "", "AB\t", "AB.", "0AB", "ÄB", "AB_", "A B", "BA", "AB0"];
